@@ -130,7 +130,7 @@ def run(tier, seed, replay):
             inflight = open(obs + ".progress").read().strip().splitlines()[-1]
         except Exception:
             pass
-        if "panic:" in gout and "blocked goroutines remain" not in gout and "deadlock:" not in gout:
+        if "panic:" in gout and "blocked goroutines remain" not in gout and "deadlock:" not in gout and "test timed out" not in gout:
             cell = inflight.split(" ", 2)[2] if inflight.count(" ") >= 2 else "{}"
             c = json.loads(cell)
             v.violation("panic:tr=%s|req=%s" % (c.get("tr"), c.get("req")),
